@@ -21,7 +21,8 @@
 EXTENDS Staker, Json, TraceLib
 
 CONSTANTS Prop,        \* "C16" or "C17": which property this run reports
-          StrictMsg    \* TRUE: revert messages must be equal, FALSE: only ok / revert
+          StrictMsg,   \* TRUE: revert messages must be equal, FALSE: only ok / revert
+          CheckProj    \* TRUE: also compare internal projections (the renewal list read from its storage slots)
 
 Trace == LoadTrace("trace.ndjson")
 VARIABLE l
@@ -59,6 +60,7 @@ Step ==
   \/ Ev.e = "SetOnline" /\ SetOnline(Ev.a, Ev.on)
   \/ Ev.e = "SetMBP" /\ SetMBP(Ev.m)
   \/ Ev.e = "Donate" /\ Donate(Ev.x)
+  \/ Ev.e = "GenesisHousekeep" /\ block = 0 /\ HousekeepAt(0)
 
 Next == l <= Len(Trace) /\ l' = l + 1 /\ Step
 Spec == Init /\ [][Next]_tvars
@@ -73,7 +75,7 @@ Totals(v, a) ==
 
 MoneyOps == {"AddValidation", "IncreaseStake", "DecreaseStake", "WithdrawStake", "AddDelegation",
              "SignalDelegationExit", "WithdrawDelegation", "Donate"}
-SetOps == {"SignalExit", "SetBeneficiary", "SetOnline", "SetMBP", "Block"}
+SetOps == {"SignalExit", "SetBeneficiary", "SetOnline", "SetMBP", "Block", "GenesisHousekeep"}
 
 ResultMismatch(R) ==
   IF R.e = "Reset" THEN {}
@@ -81,7 +83,9 @@ ResultMismatch(R) ==
        \cup (IF StrictMsg /\ res.ok = R.ok /\ res.msg # R.msg THEN {<<"result.msg", res.msg, R.msg>>} ELSE {})
        \cup (IF R.e \in {"WithdrawStake", "WithdrawDelegation", "AddDelegation"} /\ res.ok /\ R.ok /\ res.amt # R.amt
              THEN {<<"result.amt", res.amt, R.amt>>} ELSE {})
-       \cup (IF R.e = "Block" /\ R.ok /\ (res.act # R.act \/ res.upd # R.upd) THEN {<<"result.status", res.act, res.upd, R.act, R.upd>>} ELSE {})
+       \cup (IF R.e = "Block" /\ R.ok /\ Has(R, "act") /\ (res.act # R.act \/ res.upd # R.upd)
+             THEN {<<"result.status", res.act, res.upd, R.act, R.upd>>} ELSE {})
+       \cup (IF Has(R, "bad") THEN {<<"real-code-error", R.msg>>} ELSE {})
 
 ValMoney == {"lk", "pu", "qu", "cd", "wd"}
 ValSet == {"st", "end", "ben", "per", "comp", "start", "exitB", "offB", "wt", "prev", "next"}
@@ -132,10 +136,20 @@ SetMismatch(R) ==
                      ExitAt(CUR, x) # (IF \E i \in 1..Len(p.exits) : p.exits[i][1] = x
                                        THEN (CHOOSE q \in SeqToSet(p.exits) : q[1] = x)[2] ELSE NoVal)}}
 
-Own(R) == (IF Prop = "C16" THEN MoneyMismatch(R) ELSE SetMismatch(R))
-          \cup (IF (R.e \in MoneyOps) = (Prop = "C16") THEN ResultMismatch(R) ELSE {})
-Other(R) == (IF Prop = "C16" THEN SetMismatch(R) ELSE MoneyMismatch(R))
-            \cup (IF (R.e \in MoneyOps) = (Prop = "C16") THEN {} ELSE ResultMismatch(R))
+\* a getter of the real code that fails (error or panic) while the state is read is a deviation for both properties
+\* (events recorded on a real chain carry the post-state only on the last event of each block)
+GetterFailed(R) == Has(R, "post") /\ "getterError" \in DOMAIN R.post
+Own(R) == IF GetterFailed(R) THEN {<<"getterError", R.post.getterError>>}
+          ELSE (IF ~Has(R, "post") THEN {} ELSE IF Prop = "C16" THEN MoneyMismatch(R) ELSE SetMismatch(R))
+               \cup (IF (R.e \in MoneyOps) = (Prop = "C16") THEN ResultMismatch(R) ELSE {})
+Other(R) == IF GetterFailed(R) THEN {}
+            ELSE (IF ~Has(R, "post") THEN {} ELSE IF Prop = "C16" THEN SetMismatch(R) ELSE MoneyMismatch(R))
+                 \cup (IF (R.e \in MoneyOps) = (Prop = "C16") THEN {} ELSE ResultMismatch(R))
+
+\* internal projections: compared because that shows the specification describes THIS code, but a difference with all
+\* observables agreeing is specification drift (exit 2), never a violation (DESIGN section 2)
+Proj(R) == IF CheckProj /\ Has(R, "post") /\ ~GetterFailed(R) /\ Has(R.post, "ren") /\ ren # R.post.ren
+           THEN {<<"renewalList", ren, R.post.ren>>} ELSE {}
 
 Report(tag, s) == IF s = {} THEN TRUE ELSE PrintT(<<tag, l - 2, Last.e, s>>) /\ FALSE
 
@@ -143,24 +157,25 @@ Report(tag, s) == IF s = {} THEN TRUE ELSE PrintT(<<tag, l - 2, Last.e, s>>) /\ 
 \* run ends at the first deviation without TLC printing a behaviour of thousands of states
 Conforms == l > 1 => /\ Report("MISMATCH-OWN", Own(Last))
                      /\ Report("MISMATCH-OTHER", Other(Last))
+                     /\ Report("MISMATCH-PROJ", Proj(Last))
 
 \* the action properties of Staker.tla on the observed execution (a Reset step starts another history)
-T_LockedReleasedOnlyOnTime == [][Ev.e = "Reset" \/ A_LockedReleasedOnlyOnTime]_vars
-T_CooldownRespected == [][Ev.e = "Reset" \/ A_CooldownRespected]_vars
-T_DelegationReleasedOnlyOnTime == [][Ev.e = "Reset" \/ A_DelegationReleasedOnlyOnTime]_vars
-T_WithdrawPaysGetterOnce == [][Ev.e = "Reset" \/ A_WithdrawPaysGetterOnce]_vars
-T_ClaimsIndependent == [][Ev.e = "Reset" \/ A_ClaimsIndependent]_vars
-T_ChangesOnlyAtEpoch == [][Ev.e = "Reset" \/ A_ChangesOnlyAtEpoch]_vars
-T_PosNeedsQueue == [][Ev.e = "Reset" \/ A_PosNeedsQueue]_vars
-T_AtMostOneExitPerEpoch == [][Ev.e = "Reset" \/ A_AtMostOneExitPerEpoch]_vars
-T_EvictionOnlyPastThreshold == [][Ev.e = "Reset" \/ A_EvictionOnlyPastThreshold]_vars
-T_VoluntaryExitAtPeriodEnd == [][Ev.e = "Reset" \/ A_VoluntaryExitAtPeriodEnd]_vars
-T_ActivationsWithinMax == [][Ev.e = "Reset" \/ A_ActivationsWithinMax]_vars
-T_ActivationIsFifo == [][Ev.e = "Reset" \/ A_ActivationIsFifo]_vars
-T_LeaderGroupEmptiedOnlyByF4 == [][Ev.e = "Reset" \/ A_LeaderGroupEmptiedOnlyByF4]_vars
+T_LockedReleasedOnlyOnTime == [][Ev.e \in {"Reset", "GenesisHousekeep"} \/ A_LockedReleasedOnlyOnTime]_vars
+T_CooldownRespected == [][Ev.e \in {"Reset", "GenesisHousekeep"} \/ A_CooldownRespected]_vars
+T_DelegationReleasedOnlyOnTime == [][Ev.e \in {"Reset", "GenesisHousekeep"} \/ A_DelegationReleasedOnlyOnTime]_vars
+T_WithdrawPaysGetterOnce == [][Ev.e \in {"Reset", "GenesisHousekeep"} \/ A_WithdrawPaysGetterOnce]_vars
+T_ClaimsIndependent == [][Ev.e \in {"Reset", "GenesisHousekeep"} \/ A_ClaimsIndependent]_vars
+T_ChangesOnlyAtEpoch == [][Ev.e \in {"Reset", "GenesisHousekeep"} \/ A_ChangesOnlyAtEpoch]_vars
+T_PosNeedsQueue == [][Ev.e \in {"Reset", "GenesisHousekeep"} \/ A_PosNeedsQueue]_vars
+T_AtMostOneExitPerEpoch == [][Ev.e \in {"Reset", "GenesisHousekeep"} \/ A_AtMostOneExitPerEpoch]_vars
+T_EvictionOnlyPastThreshold == [][Ev.e \in {"Reset", "GenesisHousekeep"} \/ A_EvictionOnlyPastThreshold]_vars
+T_VoluntaryExitAtPeriodEnd == [][Ev.e \in {"Reset", "GenesisHousekeep"} \/ A_VoluntaryExitAtPeriodEnd]_vars
+T_ActivationsWithinMax == [][Ev.e \in {"Reset", "GenesisHousekeep"} \/ A_ActivationsWithinMax]_vars
+T_ActivationIsFifo == [][Ev.e \in {"Reset", "GenesisHousekeep"} \/ A_ActivationIsFifo]_vars
+T_LeaderGroupEmptiedOnlyByF4 == [][Ev.e \in {"Reset", "GenesisHousekeep"} \/ A_LeaderGroupEmptiedOnlyByF4]_vars
 
 \* F4 is watched, not enforced: the observation is printed and validation continues
-F4Watch == [][Ev.e # "Reset" /\ EmptiedByExitOfOnlyActive => PrintT(<<"F4-OBSERVED", l - 1>>)]_vars
+F4Watch == [][Ev.e \notin {"Reset", "GenesisHousekeep"} /\ EmptiedByExitOfOnlyActive => PrintT(<<"F4-OBSERVED", l - 1>>)]_vars
 
 Progress == HWM(l)
 TraceAccepted == Accepted(Len(Trace))
